@@ -93,7 +93,7 @@ func (r *Reader) Uint64() (uint64, error) {
 
 // Read reads n bytes and returns it
 func (r *Reader) Read(n int) ([]byte, error) {
-	if len(r.data) < n {
+	if n < 0 || len(r.data) < n {
 		return []byte{}, errReader
 	}
 
@@ -114,7 +114,7 @@ func (r *Reader) PeekUint16() (res uint16, err error) {
 
 // Peek returns the next n bytes in the reader without advancing in the stream
 func (r *Reader) Peek(n int) ([]byte, error) {
-	if len(r.data) < n {
+	if n < 0 || len(r.data) < n {
 		return []byte{}, errReader
 	}
 	return r.data[:n], nil
